@@ -6,6 +6,11 @@ BASE = json.load(open("/root/.vp/BASELINE.json"))["cmd"] if os.path.exists("/roo
     "cd /repo && /venv/bin/python -m pytest -ra -q -p no:cacheprovider --timeout=900 --continue-on-collection-errors"
 
 CLAIMED = {
+ "C18": dict(
+    technique="static analysis: clang AST + case-based abstract execution; event-order rule for info (call -> test -> return), flag pass-through comparison per case, stride algebra of the private-copy loops, allocation/cast type pairing, sibling-arm isomorphism, parse/keyword/manual table agreement",
+    text="Static, exhaustive over the 60 wrappers of lapack.c and their cases: the info value of every LAPACK call is tested (err_lapack: <0 ValueError, >0 ArithmeticError) on every path to a normal return; without the optional pivot/factor argument the routine works on a private column-by-column copy of A whose source stride is A's leading dimension and whose destination stride is the leading dimension passed with the copy; validated flag characters reach the complex routine unchanged; workspace arrays are allocated with the element type they are passed as and select callbacks run under the GIL; real/complex arms identical up to precision; keyword/format/address tables, naming convention and manual signatures agree. Guard/footprint agreement is decided under C19. It does NOT decide residuals, orthogonality or ordering of the numerical results.",
+    note="Trusted: clang 14, sa/cmodel.py abstract execution, sa/kb_lapack.py parameter lists, LAPACK itself.",
+    ref="DESIGN.md section 3, C18"),
  "C19": dict(
     technique="static analysis: clang AST + case-based abstract execution of every wrapper; dominating-guard facts compared as polynomials with netlib BLAS/LAPACK footprints, bounded concrete counter-example search when forms differ; type-check-before-use, parse-format/storage and macro-vocabulary rules",
     text="Static, exhaustive over the wrappers of blas.c and lapack.c (every type arm x flag x zero/positive dimension x optional-argument case), misc_solvers.c, and every PyArg_Parse* call of the six C files: each matrix buffer handed to BLAS/LAPACK is covered by dominating rejecting guards >= offset + reference footprint (exact for BLAS and 49 LAPACK routines, variable-set rule otherwise), offsets rejected when negative, leading dimensions checked, local arrays large enough; guards do not over-reject; misc_solvers kernels check type and length of matrix arguments (19 recorded findings); format units stored into matching C types; length/index macros have their reference definitions. It does NOT decide overflow of the int arithmetic inside the guards near 2^31, the internals of BLAS/LAPACK/SuiteSparse, nor sparse.c's index arithmetic.",
